@@ -788,6 +788,14 @@ func genC12c(g *G, sc *Scenario, tier string) {
 		}
 		sc.Tasks = append(sc.Tasks, ops)
 	}
+	// readers going through the whole change feed, forwards in one call and backwards entry by entry
+	for rd := g.Range(0, 2); rd > 0; rd-- {
+		var ops []Op
+		for i := g.Range(1, 3); i > 0; i-- {
+			ops = append(ops, Op{K: "scan", DS: "dsA", Latest: g.P(0.6)})
+		}
+		sc.Tasks = append(sc.Tasks, ops)
+	}
 	sc.Knobs["schedSeed"] = int64(g.r.Uint64() >> 1)
 	sc.Knobs["preemptPct"] = int64(g.PickInt([]int{20, 35, 50, 70}))
 }
